@@ -148,22 +148,39 @@ def run(prog: Program, res: Result, tier: str) -> None:
     _row_cover(prog, res, rb, "nsamps")
     _row_cover(prog, res, rp, None)
     # read_block: reshape(nsamps, nchans).T and range guards
-    src = norm(rb.node)
+    from ..normalform import canon, returned
+    from ..pathcond import guarded
+    from ..poly import PolyEnv
     key = "read_block:shape"
-    if "data = data.reshape(nsamps, self.header.nchans).transpose()" in src:
+    flow = flow_of(rb)
+    rets = [s_ for s_ in body_walk(rb.node) if isinstance(s_, ast.Return) and isinstance(s_.value, ast.Call)]
+    shaped = False
+    for r_ in rets:
+        arg0 = r_.value.args[0] if r_.value.args else None
+        ex = flow.expand(arg0, flow.cfg.node_for(r_)) if arg0 is not None else None
+        # <rows>.reshape(nsamps, nchans).transpose() (or .T)
+        for sub in (ast.walk(ex) if ex is not None else ()):
+            inner = None
+            if isinstance(sub, ast.Call) and isinstance(sub.func, ast.Attribute) and sub.func.attr == "transpose" and not sub.args:
+                inner = sub.func.value
+            elif isinstance(sub, ast.Attribute) and sub.attr == "T":
+                inner = sub.value
+            if isinstance(inner, ast.Call) and isinstance(inner.func, ast.Attribute) and inner.func.attr == "reshape":
+                dims = inner.args[0].elts if len(inner.args) == 1 and isinstance(inner.args[0], ast.Tuple) else inner.args
+                if len(dims) == 2 and canon(dims[0]) == canon("nsamps") and canon(dims[1]) == canon("self.header.nchans"):
+                    shaped = True
+    if shaped:
         res.ok("R1", rb, rb.node, "block is (channels, samples) = reshape(nsamps, nchans).T", construct="reshape", key=key)
     else:
         res.bad("R1", rb, rb.node, "read_block no longer reshapes the rows to (nsamps, nchans) and transposes", construct="reshape", key=key)
-    flow = flow_of(rb)
-    from ..cfg import always_raises
-    guards = [s for s in body_walk(rb.node) if isinstance(s, ast.If) and always_raises(s.body)]
     rdc = [c for c in calls_in_body(rb.node) if (dotted(c.func) or "").endswith("read_subints")]
     key = "read_block:guards"
-    want = {"fch1 > self.header.fch1 or nchans > self.header.nchans", "start < 0 or start + nsamps > self.header.nsamples"}
-    if want <= {norm(g.test) for g in guards} and rdc and all(flow.cfg.dominates(flow.cfg.node_for(g), flow.cfg.node_for(rdc[0])) for g in guards):
-        res.ok("R1", rb, guards[0], "out-of-range requests raise ValueError before anything is read", key=key)
+    P_ = lambda t: PolyEnv().poly(ast.parse(t, mode="eval").body)  # noqa: E731
+    okg, whyg = guarded(flow, rdc, [("<=0", P_("-start")), ("<=0", P_("start + nsamps - self.header.nsamples"))], exc="ValueError")
+    if okg:
+        res.ok("R1", rb, rb.node, "out-of-range requests raise ValueError before anything is read", key=key, construct="guards")
     else:
-        res.bad("R1", rb, rb.node, "read_block's range guards no longer dominate the read", construct="guards", key=key)
+        res.bad("R1", rb, rb.node, "read_block's range guards no longer dominate the read: " + "; ".join(whyg), construct="guards", key=key)
 
     # ---- R2 = C01 rules on PFITSReader.read_plan --------------------------------------------------
     from .c01 import check_reader
